@@ -10,6 +10,7 @@
 #include "stir/ExamInfo.h"
 #include "stir/Scanner.h"
 #include "stir/Bin.h"
+#include <algorithm>
 #include <cstdio>
 #include <cstdlib>
 #include <cstring>
@@ -68,6 +69,57 @@ static int roundtrip()
   return 0;
 }
 
+// "for data generated exactly from a model, the model parameters are a fixed point of the ML iterations": block factors.
+// Data = model with block factors applied (one block nearly dead: factor 2e-5, so its block sums are far below 1e-4 of the
+// largest one); one iterate_block_norm step from the model must give the generating factors back.
+static int mlblock()
+{
+  shared_ptr<Scanner> scanner(new Scanner(Scanner::E953));
+  shared_ptr<ProjDataInfo> info(ProjDataInfo::ProjDataInfoCTI(scanner, 1, scanner->get_num_rings() - 1, scanner->get_num_detectors_per_ring() / 2,
+                                                             scanner->get_max_num_non_arccorrected_bins(), false));
+  shared_ptr<ExamInfo> exam(new ExamInfo);
+  ProjDataInMemory model_pd(exam, info);
+  model_pd.fill(50.F);
+  FanProjData model;
+  make_fan_data_remove_gaps(model, model_pd);
+  const int nab = scanner->get_num_axial_blocks(), ntb = scanner->get_num_transaxial_blocks();
+  BlockData3D truth(nab, ntb, nab - 1, ntb - 1), measured(nab, ntb, nab - 1, ntb - 1), model_sums(nab, ntb, nab - 1, ntb - 1), est(nab, ntb, nab - 1, ntb - 1);
+  unsigned long st = 12345UL;
+  for (int ra = truth.get_min_ra(); ra <= truth.get_max_ra(); ++ra)
+    for (int a = truth.get_min_a(); a <= truth.get_max_a(); ++a)
+      for (int rb = std::max(ra, truth.get_min_rb(ra)); rb <= truth.get_max_rb(ra); ++rb)
+        for (int b = truth.get_min_b(a); b <= truth.get_max_b(a); ++b)
+          {
+            st = st * 6364136223846793005ULL + 1442695040888963407ULL;
+            float f = 0.75F + 0.5F * float((st >> 40) & 0xFFFF) / 65536.F;
+            if ((ra == 0 && a == 5) || (rb == 0 && b % ntb == 5)) f *= 2.e-5F;
+            truth(ra, a, rb, b) = f;
+          }
+  FanProjData data = model;
+  apply_block_norm(data, truth, true);
+  make_block_data(measured, data);
+  make_block_data(model_sums, model);
+  iterate_block_norm(est, measured, model);
+  const BlockData3D &T = truth, &E = est, &M = model_sums, &D = measured;
+  const float dmax = D.find_max();
+  for (int ra = T.get_min_ra(); ra <= T.get_max_ra(); ++ra)
+    for (int a = T.get_min_a(); a <= T.get_max_a(); ++a)
+      for (int rb = std::max(ra, T.get_min_rb(ra)); rb <= T.get_max_rb(ra); ++rb)
+        for (int b = T.get_min_b(a); b <= T.get_max_b(a); ++b)
+          {
+            if (M(ra, a, rb, b) <= 0) continue;
+            const float want = T(ra, a, rb, b), got = E(ra, a, rb, b);
+            if (!(got >= want * 0.999F && got <= want * 1.001F))
+              {
+                std::printf("CONFIRMED iterate_block_norm on data generated from the model: block pair (%d,%d)-(%d,%d) was generated with factor %g, the ML step returns %g (measured block sum %g = %.2g of the largest)\n",
+                            ra, a, rb, b % ntb, want, got, D(ra, a, rb, b), D(ra, a, rb, b) / dmax);
+                return 1;
+              }
+          }
+  std::printf("REPLAY ok\n");
+  return 0;
+}
+
 // scanner with virtual crystals (ECAT 1080: one virtual crystal per block, axially and transaxially): proj data -> fan data
 // -> proj data restores every bin whose four crystals are physical and fills every other bin of the fan with gap_value
 static int gaps()
@@ -114,6 +166,7 @@ int main(int argc, char** argv)
       if (argc >= 6 && !strcmp(argv[1], "indata")) return indata(atoi(argv[2]), atoi(argv[3]), atoi(argv[4]), atoi(argv[5]));
       if (argc >= 2 && !strcmp(argv[1], "roundtrip")) return roundtrip();
       if (argc >= 2 && !strcmp(argv[1], "gaps")) return gaps();
+      if (argc >= 2 && !strcmp(argv[1], "mlblock")) return mlblock();
     }
   catch (...)
     {
